@@ -22,15 +22,14 @@ theorem prepend_others_kept_in_order (v : α) (old : List α) :
 /-- envAppend keeps every other element, in the relative order of first occurrences. -/
 theorem append_others_kept_in_order (v : α) (old : List α) :
     (applyL true true [v] old).filter (· != v) = (uniq old).filter (· != v) := by
-  simp only [applyL, List.foldl_cons, List.foldl_nil, if_true]
-  rw [uniq_appendL]
+  rw [applyL_append_single]
   simp [List.filter_append, List.filter_filter]
 
 /-- envAppend puts its value last — for every prior list, also one that already holds the value (the element
 moves; repair of D8). -/
 theorem append_last (v : α) (old : List α) :
     (applyL true true [v] old).getLast? = some v := by
-  simp [applyL, uniq_appendL]
+  simp [applyL_append_single]
 
 /-- The pinned rule (before the repair of D8: add at the end, then `pathUnique` keeping the first occurrence) puts
 the value last only when it was not already present … -/
@@ -62,8 +61,7 @@ theorem unsetup_after_setup (append : Bool) (v : α) (old : List α) (h : v ∉ 
   rw [unsetup_removes_exactly]
   cases append
   · simp [applyL, prependL, uniq, List.filter_filter, hf, uniq_idem]
-  · simp only [applyL, List.foldl_cons, List.foldl_nil, if_true]
-    rw [uniq_appendL, hf, uniq_append_singleton v _ (fun hm => h ((mem_uniq old v).mp hm))]
+  · rw [applyL_append_single, hf, uniq_append_singleton v _ (fun hm => h ((mem_uniq old v).mp hm))]
     simp [List.filter_append, hf, uniq_idem]
 
 /-- Sequences: any fold of actions leaves a duplicate-free list. -/
